@@ -7,6 +7,7 @@ Model: `Model/Adapt.lean`; vocabulary (`ValidChain`, `SucceedsFrom`, `Determinis
 `Homogeneous`, `OneStep`, `WeakOn`): `Lemmas/AdaptSpec.lean`, `Lemmas/AdaptExtra.lean`.
 -/
 import TraitsVerif.Lemmas.AdaptWitness
+import TraitsVerif.Lemmas.AdaptSource2
 namespace TraitsVerif.Props.C17
 open TraitsVerif TraitsVerif.Model.Adapt TraitsVerif.Lemmas.Adapt
 variable {α : Type}
@@ -461,5 +462,111 @@ theorem C17_model_facts (cfg : Cfg) (es : List Edge) (os : List Offer)
     (hnames : ∀ o ∈ os, ∀ o' ∈ os, o.key = o'.key → o.frm = o'.frm) :
     (pySort (edgeLt cfg) es).Perm es ∧ Homogeneous ⟨cfg.provides, cfg.supers, groupsOf os⟩ :=
   ⟨pySort_perm _ _, groupsOf_homogeneous os hnames _ _⟩
+
+/-! ## the model's search is the source
+
+`Generated/AdaptProg.lean` is the translation (regenerated on every run by
+`harness/translate/pyadapt.py`) of the source text of `provides_protocol`,
+`mro_distance_to_protocol`, `_adapt`, `_get_applicable_offers` and
+`_by_weight_then_from_protocol_specificity` into the deep-embedded language
+`Model/PyA.lean`. -/
+
+open TraitsVerif.Model.PyA TraitsVerif.Generated.AdaptProg TraitsVerif.Lemmas.AdaptSource in
+/-- **`Model.Adapt`'s search is the interpretation of the translated source**: for
+every issubclass / MRO table and registry (with non-empty buckets — what
+`register_offer` builds, `C17_registry_nonempty`), every factory table (ordinal-dependent
+and raising ones included), adaptee type, adaptee and target, interpreting the source
+of `_adapt` (and of everything it calls) gives the model's result and the model's
+trace of factory calls.  (The result is compared with the path forgotten: `_adapt`
+returns the adapter only; the path is what the trace shows.) -/
+theorem C17_search_is_source (cfg : Cfg) (hne : NonEmptyGroups cfg) (f : Factory α) (srcType : Nat)
+    (adaptee : α) (target : Nat) :
+    runAdapt adaptProg cfg f srcType adaptee target (fuelFor cfg) =
+      (viewRes (adaptInner cfg f srcType adaptee target).1, (adaptInner cfg f srcType adaptee target).2) :=
+  runAdapt_eq cfg hne f srcType adaptee target (fuelFor cfg)
+
+open TraitsVerif.Lemmas.AdaptSource in
+/-- What `register_offer` builds has no empty bucket (`offers[0]` in
+`_get_applicable_offers` never raises). -/
+theorem C17_registry_nonempty (provides : Nat → Nat → Bool) (supers : Nat → List Nat) (os : List Offer) :
+    NonEmptyGroups ⟨provides, supers, groupsOf os⟩ := by
+  have step : ∀ (reg : List (Nat × List Offer)) (o : Offer), (∀ kv ∈ reg, kv.2 ≠ []) →
+      ∀ kv ∈ registerOffer reg o, kv.2 ≠ [] := by
+    intro reg o h kv hkv
+    unfold registerOffer at hkv
+    split at hkv
+    · obtain ⟨kv', hm, rfl⟩ := List.mem_map.1 hkv
+      split
+      · simp
+      · exact h _ hm
+    · rcases List.mem_append.1 hkv with hm | hm
+      · exact h _ hm
+      · simp only [List.mem_singleton] at hm; subst hm; simp
+  have fold : ∀ (os : List Offer) (reg : List (Nat × List Offer)), (∀ kv ∈ reg, kv.2 ≠ []) →
+      ∀ kv ∈ os.foldl registerOffer reg, kv.2 ≠ [] := by
+    intro os
+    induction os with
+    | nil => intro reg h; exact h
+    | cons o os ih => intro reg h; exact ih _ (step reg o h)
+  intro g hg
+  simp only [groupsOf, registry] at hg
+  obtain ⟨kv, hm, rfl⟩ := List.mem_map.1 hg
+  exact fold os [] (by simp) kv hm
+
+open TraitsVerif.Model.PyA TraitsVerif.Generated.AdaptProg TraitsVerif.Lemmas.AdaptSource in
+/-- Completeness as a statement about the interpreted source: the translated `_adapt`
+returns `None` exactly when no valid chain has factories that all succeed. -/
+theorem C17_source_complete {cfg : Cfg} {f : Factory α} {srcType : Nat} {adaptee : α} {target : Nat}
+    (hne : NonEmptyGroups cfg) (hdet : Deterministic f) (hnr : NoRaise f) (hh : Homogeneous cfg) :
+    (runAdapt adaptProg cfg f srcType adaptee target (fuelFor cfg)).1 = .notFound ↔
+      ¬ ∃ chain a, ValidChain cfg srcType target chain ∧ SucceedsFrom f 0 chain adaptee a := by
+  rw [C17_search_is_source cfg hne, ← C17_complete hdet hnr hh]
+  cases (adaptInner cfg f srcType adaptee target).1 <;> simp [viewRes]
+
+open TraitsVerif.Model.PyA TraitsVerif.Generated.AdaptProg TraitsVerif.Lemmas.AdaptSource in
+/-- Soundness and minimality as statements about the interpreted source: an adapter
+returned by the translated `_adapt` was produced by a valid chain all of whose
+factories succeeded, and (deterministic factories) no successful valid chain is shorter. -/
+theorem C17_source_sound_minimal {cfg : Cfg} {f : Factory α} {srcType : Nat} {adaptee : α} {target : Nat}
+    (hne : NonEmptyGroups cfg) (hh : Homogeneous cfg) {a : α}
+    (h : (runAdapt adaptProg cfg f srcType adaptee target (fuelFor cfg)).1 = .found a) :
+    ∃ path, ValidChain cfg srcType target path ∧ (∃ k, SucceedsFrom f k path adaptee a) ∧
+      (Deterministic f → ∀ chain a', ValidChain cfg srcType target chain → SucceedsFrom f 0 chain adaptee a' →
+        path.length ≤ chain.length) := by
+  rw [C17_search_is_source cfg hne] at h
+  rcases hin : adaptInner cfg f srcType adaptee target with ⟨r, tr⟩
+  rw [hin] at h
+  cases r with
+  | found p a' =>
+    simp only [viewRes, ResV.found.injEq] at h
+    subst h
+    refine ⟨p, ?_, ?_, fun hdet => C17_minimal hdet hh hin⟩
+    · unfold adaptInner at hin
+      obtain ⟨hc, _, _⟩ := adaptLoop_sound (cfg := cfg) (src := srcType) _ _ (by
+        intro e he
+        simp only [initSt, List.mem_singleton] at he
+        subst he
+        exact ⟨Reach.nil, rfl, rfl⟩) _ _ _ hin
+      exact hc.valid hh
+    · unfold adaptInner at hin
+      obtain ⟨_, tr'', hw⟩ := adaptLoop_sound (cfg := cfg) (src := srcType) _ _ (by
+        intro e he
+        simp only [initSt, List.mem_singleton] at he
+        subst he
+        exact ⟨Reach.nil, rfl, rfl⟩) _ _ _ hin
+      exact ⟨_, (walk_done_iff f _ _ _ _).1 hw⟩
+  | raised e => simp [viewRes] at h
+  | notFound => simp [viewRes] at h
+  | outOfFuel => simp [viewRes] at h
+
+-- the interpreted source on the chain registry: the direct offer declines, the two-step chain is taken
+open TraitsVerif.Model.PyA TraitsVerif.Generated.AdaptProg TraitsVerif.Lemmas.AdaptSource in
+example : NonEmptyGroups chainCfg ∧
+    runAdapt adaptProg chainCfg (refusing [0]) 3 () 2 (fuelFor chainCfg) =
+      (.found (), [⟨0, .none⟩, ⟨1, .ok⟩, ⟨2, .ok⟩]) := by
+  have hne : NonEmptyGroups chainCfg := by unfold NonEmptyGroups; decide
+  refine ⟨hne, ?_⟩
+  rw [C17_search_is_source chainCfg hne]
+  decide
 
 end TraitsVerif.Props.C17
